@@ -348,6 +348,16 @@ func (node *TopNode) resolveMerge(binding *syntax.MergeExp, t syntax.Type,
 				binding.MergeOver.CallMode().String())
 		}
 		innerT = t.Elem
+	case *syntax.BuiltinType:
+		if t.Id != syntax.KindMap || binding.MergeOver.CallMode() != syntax.ModeMapCall {
+			tid := t.TypeId()
+			return true, nil, fmt.Errorf("invalid type for %s for %s: %s",
+				binding.GoString(), binding.Call.GetFqid(), tid.String())
+		}
+		// An untyped map takes the typed map the merge produces as it is
+		// (its values are filtered with their own types), like
+		// LazyArgumentMap.Path does for a projection through a typed map.
+		innerT = nil
 	default:
 		// Reachable from accepted programs: the merged output of a mapped
 		// call inside a mapped sub-pipeline bound to an untyped map (`map m =
